@@ -68,8 +68,16 @@ def gen_programs(rng, nclients, big_ok=True, kinds=None, nshared=None):
                     data = data[: max(len(head), size // 2)] + bytes(rng.pick([4096, 8192, 70000]))  # long zero tail
                 elif zk == 2:
                     data = data[: size // 2] + bytes(8192) + data[size // 2:]  # zeros in the middle
+                elif zk == 3 and big_ok:
+                    data = (head * 30000)[: rng.pick([262144, 131072])] + bytes(rng.pick([262144, 524288]))  # ends with whole zero buffers, length a multiple of 256 KiB
                 key = "c%d.%d" % (c, k)
                 contents[key] = data
+                if c > 0 and rng.chance(1, 8):
+                    # the very bytes another client is writing (to the same or another path): whatever is keyed by
+                    # content or by its hash is now shared between two server processes
+                    others = sorted(kk for kk in contents if kk.startswith("c") and not kk.startswith("c%d." % c))
+                    if others:
+                        key = rng.pick(others)
                 exp = rng.pick(["seen"] * 4 + ["init"] * 3 + ["none"] * 2 + ["stale"])
                 prog.append(Op(c, "Put", path, expected=exp, content=key, opno=k, pieces=rng.range(1, 5), wire=alias(rng, path)))
             elif kind == "Delete":
@@ -1103,6 +1111,7 @@ def strip(rep):
 
 def c11(tier):
     build("cli", "shim", "vh")
+    slash_before = set(os.listdir("/"))
     r = Result("C11", "exploration", "one evaluation = one session (prologue, Hello, one probe request with a hostile path string, fixed tail of valid requests) against `copia serve ROOT` under the libc trace, ROOT sitting inside a sentinel directory with decoys; differential attribution: the multiset of calls whose path argument resolves outside ROOT (lexically or via realpath of the parent) must not exceed that of a control session without the probe; sentinel tree unchanged; absolute / `..` paths must draw an Error, change nothing, and leave the tail's replies equal to the control's; paths: exhaustive over <= 3 components of {`..`, `.`, ``, name, `..x`, `x..`, `...`} x leading/trailing slash, random up to 6 components with long names and repeated slashes; x {Get, Put with content, Delete}; distinct non-trivial = (request kind, component classes) of probes containing `..`, absolute, or `//`")
     th = tier == "thorough"
     wroot = workdir("c11")
@@ -1123,6 +1132,20 @@ def c11(tier):
     r.assumptions = ["the served tree has no symlinks leading outside", "runtime noise (/proc, locale, cgroup files) appears in the control session too and cancels", "in the quick tier the exhaustive index space (4116 strings) is sampled with a coprime stride; the thorough tier covers it completely"]
     if tier == "thorough":
         asan_stage(r, "C11")
+    # a hub that lets an absolute path through writes to the real file system root (the checks run as root):
+    # whatever appeared there during this check is the hub's, is reported above as a call outside ROOT, and is
+    # removed again
+    stray = sorted(set(os.listdir("/")) - slash_before)
+    for nm in stray:
+        full = os.path.join("/", nm)
+        try:
+            if os.path.isdir(full) and not os.path.islink(full):
+                shutil.rmtree(full)
+            else:
+                os.unlink(full)
+        except OSError:
+            pass
+    r.count("stray_entries_removed_from_the_file_system_root", len(stray))
     finish(r, tier)
 
 
@@ -1170,9 +1193,18 @@ def gen_c12_input(rng, b3, idx, sweep=None):
             data = full[:pos]
             inval = pos < len(cbor.MAGIC) + len(cbor.req_hello()) + 4
             return {"data": data, "cls": "cut-point", "invalid": inval, "prefixes": [], "content": content}
-    k = rng.below(13)
+    k = rng.below(14)
     prefixes = []
     inval = False
+    if k == 13:
+        # two things wrong at once: a well-formed Put the hub must refuse (path) AND input that ends inside its
+        # content - the refusal's drain must notice the end of input like every other read
+        body = b"refused-content-" * rng.pick([1, 40, 5000])
+        badp = rng.pick(["../esc", "a/../../esc", "d/../../../esc", "../" + "n" * 200])
+        sent = body[: rng.pick([0, 1, len(body) // 2, len(body) - 1])]
+        lead = cbor.MAGIC + cbor.req_hello() + (cbor.req_list() if rng.chance(1, 2) else b"")
+        data = lead + cbor.req_put(badp, None, len(body), b3.data(body)) + sent
+        return {"data": data, "cls": "refused-put-cut-inside-content", "invalid": False, "prefixes": [], "content": content, "path": spath}
     if k == 12 and rng.chance(1, 2):
         # a final frame whose prefix overstates a COMPLETE request body, then EOF: the frame never
         # arrives in full, so the request in it must not be carried out
@@ -1515,6 +1547,16 @@ def gen_local_tree(rng, universe, hostile=True):
             size = rng.pick([0, 1, 50, 2000, 300 * 1024])
             files[p] = (b"%s|" % rng.bytes(5).hex().encode()) * (size // 11 + (1 if size else 0)) if size else b""
             files[p] = files[p][:size] if size else b""
+            zk = rng.below(12)
+            if zk == 0:
+                # disk images, pre-allocated databases: whole buffers of zeros, a length that is an exact multiple
+                # of the hub's I/O buffer, zeros at the very end
+                files[p] = bytes(rng.pick([262144, 524288, 8192, 262143, 262145]))
+            elif zk == 1:
+                files[p] = (b"%s|" % rng.bytes(5).hex().encode()) * 24000
+                files[p] = files[p][: rng.pick([262144, 131072])] + bytes(rng.pick([262144, 524288]))
+            elif zk == 2:
+                files[p] = bytes(262144) + b"tail-after-a-zero-buffer" + bytes(rng.pick([0, 262144 - 24]))
     if not files:
         files[universe[0]] = b"only"
     return files
